@@ -46,6 +46,9 @@ type violation struct {
 	Harness string            `json:"harness"`
 	Args    []int             `json:"args"`
 	Where   string            `json:"where,omitempty"`
+	Covers  []string          `json:"covers,omitempty"`  // witnesses: cover labels the symbolic path went through
+	Threads int               `json:"threads,omitempty"` // witnesses: interpreted threads on the path
+	hash    uint64
 }
 
 type inputRec struct {
